@@ -212,6 +212,55 @@ void body_held_t(int readers, int mods)
     delete lr;
 }
 
+// Scale: one reader keeps n shared handles at once (a handle is counted, not a thread) while a writer modifies. The
+// writer must wait for all of them, however many there are (counter width, thresholds).
+template<class LR>
+void body_many_t(int n)
+{
+    constexpr int CAP = 65536 + 8;
+    static typename std::aligned_storage<sizeof(std::optional<typename LR::shared_handle>),
+                                         alignof(std::optional<typename LR::shared_handle>)>::type raw[CAP];
+    using Slot = std::optional<typename LR::shared_handle>;
+    g_functor_ran = false;
+    hx::win_reset();
+    LR* lr = new LR(0);
+    {
+        // an abandoned execution leaves stale slots behind: re-create them without running destructors
+        for (int i = 0; i < n; i++) new (&raw[i]) Slot();
+        Slot* hs = reinterpret_cast<Slot*>(raw);
+        Event in;
+        std::vector<int> ids;
+        ids.push_back(spawn([lr, n, hs, &in] {
+            for (int i = 0; i < n; i++) {
+                if (i & 1) hs[i].emplace(lr->try_lock_shared());
+                else hs[i].emplace(lr->lock_shared());
+                MC_CHECK(bool(*hs[i]), "null-handle", "shared acquisition %d returned a null handle", i);
+            }
+            int v = hx::read_pair(**hs[0], "reader under its first handle");
+            in.set();
+            await([] { return g_functor_ran; });
+            point();
+            int v2 = hx::read_pair(**hs[n - 1], "reader under its last handle (after the writer started)");
+            MC_CHECK(v == v2, "changed-under-handle", "value changed from %d to %d while %d shared handles were held", v, v2, n);
+            for (int i = 0; i < n; i++) hs[i].reset();
+        }));
+        ids.push_back(spawn([lr, &in] {
+            in.wait();
+            lr->modify([](Pair& x) {
+                hx::WriteWin w(&x, "modify functor");
+                g_functor_ran = true;
+                ++x.a;
+                point();
+                ++x.b;
+            });
+        }));
+        for (int id : ids) join(id);
+    }
+    int fin = hx::read_pair(*lr->lock_shared(), "final read");
+    MC_CHECK(fin == 1, "lost-update", "final value %d after 1 modification", fin);
+    delete lr;
+}
+
 // Writers whose functor throws (half-way through its update) on its first or on its second
 // application: the modification must still be all-or-nothing for readers holding / taking handles.
 struct Boom {};
@@ -338,6 +387,7 @@ void body(const Prog& p)
     else body_t<LR_M>(p);
 }
 void body_held(int readers, int mods) { body_held_t<LR_T>(readers, mods); }  // uses all four reader forms
+void body_many(int n) { body_many_t<LR_M>(n); }
 void body_throwing(int throw_at, int readers, int acq) { body_throwing_t<LR_T>(throw_at, readers, acq); }
 #ifdef MODE_C14
 void body_late_reader() { body_late_reader_t<LR_M>(); }
@@ -357,6 +407,15 @@ void make_items(const Options& o, std::vector<Item>& items)
         items.push_back(it);
     }
 #endif
+    for (int n : {256, 65536}) {
+        if (n > 256 && !thorough) continue;
+        Item it;
+        it.name = "lr_guarded<Pair> | one reader keeps " + std::to_string(n) + " shared handles at once (lock_shared / try_lock_shared) | writer: modify x1";
+        it.body = [n] { body_many(n); };
+        it.bounds = hx::tier_bounds(o, n > 256 ? 0 : 1, n > 256 ? 0 : 1);
+        it.bounds.max_steps = n > 256 ? 1500000 : 8000;
+        items.push_back(it);
+    }
     for (int throw_at = 1; throw_at <= 2; throw_at++)
         for (int readers = 1; readers <= 2; readers++) {
             Item it;
